@@ -10,9 +10,11 @@ import (
 	"time"
 
 	bitfield "github.com/OffchainLabs/go-bitfield"
+	eth2api "github.com/attestantio/go-eth2-client/api"
 	eth2v1 "github.com/attestantio/go-eth2-client/api/v1"
 	eth2spec "github.com/attestantio/go-eth2-client/spec"
 	"github.com/attestantio/go-eth2-client/spec/altair"
+	"github.com/attestantio/go-eth2-client/spec/bellatrix"
 	"github.com/attestantio/go-eth2-client/spec/electra"
 	eth2p0 "github.com/attestantio/go-eth2-client/spec/phase0"
 
@@ -135,6 +137,17 @@ func rootOf(sd core.SignedData) ([32]byte, error) {
 	return sd.MessageRoot()
 }
 
+// rootFor returns the message root that decides "matching" for a duty type. DutySignature carries
+// plain signatures that have no message root (core.Signature.MessageRoot fails): for such duties
+// all partials of distinct shares match, which the harness expresses as one common zero root.
+func rootFor(typ core.DutyType, sd core.SignedData) ([32]byte, error) {
+	if typ == core.DutySignature {
+		return [32]byte{}, nil
+	}
+
+	return rootOf(sd)
+}
+
 // ---------------------------------------------------------------------------------------------
 // value factory: one logical partial signature = unique id -> unique signature bytes; the root
 // variant selects which data is signed.
@@ -172,7 +185,9 @@ func rootBytes(caseSalt uint64, keyIdx, variant int) eth2p0.Root {
 func realTypeAvailable(typ core.DutyType) bool {
 	switch typ {
 	case core.DutyAttester, core.DutySyncMessage, core.DutySyncContribution,
-		core.DutyPrepareSyncContribution, core.DutyExit, core.DutyRandao:
+		core.DutyPrepareSyncContribution, core.DutyExit, core.DutyRandao,
+		core.DutySignature, core.DutyProposer, core.DutyAggregator, core.DutyPrepareAggregator,
+		core.DutyBuilderRegistration:
 		return true
 	default:
 		return false
@@ -248,6 +263,78 @@ func makeValue(real bool, duty core.Duty, keyIdx int, sub uint64, variant, id in
 		}), nil
 	case core.DutyRandao:
 		return core.NewSignedRandao(eth2p0.Epoch(duty.Slot/32)+eth2p0.Epoch(variant), sig), nil
+	case core.DutySignature:
+		// plain signature (DKG exchanger): no message, no root; the variant is meaningless.
+		return core.SigFromETH2(sig), nil
+	case core.DutyPrepareAggregator:
+		// message root = hash(slot): the variant moves the slot.
+		return core.NewBeaconCommitteeSelection(&eth2v1.BeaconCommitteeSelection{
+			ValidatorIndex: vidx, Slot: slot + eth2p0.Slot(variant), SelectionProof: sig,
+		}), nil
+	case core.DutyAggregator:
+		bits := bitfield.NewBitlist(16)
+		bits.SetBitAt(uint64(keyIdx%16), true)
+
+		return core.NewVersionedSignedAggregateAndProof(&eth2spec.VersionedSignedAggregateAndProof{
+			Version: eth2spec.DataVersionDeneb,
+			Deneb: &eth2p0.SignedAggregateAndProof{
+				Message: &eth2p0.AggregateAndProof{
+					AggregatorIndex: vidx,
+					Aggregate: &eth2p0.Attestation{
+						AggregationBits: bits,
+						Data: &eth2p0.AttestationData{
+							Slot: slot, Index: eth2p0.CommitteeIndex(keyIdx), BeaconBlockRoot: root,
+							Source: &eth2p0.Checkpoint{Epoch: eth2p0.Epoch(duty.Slot / 32), Root: rootBytes(salt, keyIdx, 100)},
+							Target: &eth2p0.Checkpoint{Epoch: eth2p0.Epoch(duty.Slot/32 + 1), Root: rootBytes(salt, keyIdx, 101)},
+						},
+						Signature: sigBytes(salt, 1<<22+keyIdx),
+					},
+					SelectionProof: sigBytes(salt, 1<<23+keyIdx),
+				},
+				Signature: sig,
+			},
+		}), nil
+	case core.DutyBuilderRegistration:
+		var pk eth2p0.BLSPubKey
+		pkr := rootBytes(salt, keyIdx, 102)
+		copy(pk[:], pkr[:])
+		var fee bellatrix.ExecutionAddress
+		copy(fee[:], pkr[8:])
+		reg, err := core.NewVersionedSignedValidatorRegistration(&eth2api.VersionedSignedValidatorRegistration{
+			Version: eth2spec.BuilderVersionV1,
+			V1: &eth2v1.SignedValidatorRegistration{
+				Message: &eth2v1.ValidatorRegistration{
+					FeeRecipient: fee, GasLimit: 30000000 + uint64(variant),
+					Timestamp: time.Unix(1606824023+int64(duty.Slot)*12, 0), Pubkey: pk,
+				},
+				Signature: sig,
+			},
+		})
+		if err != nil {
+			return nil, err
+		}
+
+		return reg, nil
+	case core.DutyProposer:
+		return core.NewVersionedSignedProposal(&eth2api.VersionedSignedProposal{
+			Version: eth2spec.DataVersionPhase0,
+			Phase0: &eth2p0.SignedBeaconBlock{
+				Message: &eth2p0.BeaconBlock{
+					Slot: slot, ProposerIndex: vidx, ParentRoot: rootBytes(salt, keyIdx, 103), StateRoot: root,
+					Body: &eth2p0.BeaconBlockBody{
+						RANDAOReveal:      sigBytes(salt, 1<<24+keyIdx),
+						ETH1Data:          &eth2p0.ETH1Data{DepositRoot: rootBytes(salt, keyIdx, 104), BlockHash: rootBytes(salt, keyIdx, 105)[:]},
+						Graffiti:          rootBytes(salt, keyIdx, 106),
+						ProposerSlashings: []*eth2p0.ProposerSlashing{},
+						AttesterSlashings: []*eth2p0.AttesterSlashing{},
+						Attestations:      []*eth2p0.Attestation{},
+						Deposits:          []*eth2p0.Deposit{},
+						VoluntaryExits:    []*eth2p0.SignedVoluntaryExit{},
+					},
+				},
+				Signature: sig,
+			},
+		})
 	default:
 		return nil, fmt.Errorf("no real type for %v", duty.Type)
 	}
